@@ -65,5 +65,17 @@ def main():
     if not clean():
         print("WARNING: /repo not clean after run")
     json.dump(results, open(os.path.join(HERE, "out", "mutate_last.json"), "w"), indent=1)
+    # cumulative, committed record: name -> {check: exit code}
+    rp = os.path.join(HERE, "mutants", "RESULTS.json")
+    try:
+        allres = json.load(open(rp))
+    except Exception:
+        allres = {}
+    for name, status, res in results:
+        if status == "ran":
+            allres[name] = {c: v["rc"] for c, v in res.items() if isinstance(v, dict)}
+        else:
+            allres[name] = {"status": status}
+    json.dump(allres, open(rp, "w"), indent=1, sort_keys=True)
 
 main()
